@@ -145,3 +145,38 @@ def register(reg):
         ensures=["implies(value is None, result is None)", "result is None or result.tzinfo is not None"],
         raises={},   # TypeError, ValueError and OverflowError of the stdlib parser are all caught
     )
+
+    # ---- fallback-to-default on conversion errors ---------------------------------------------------------------
+    def _loader(it, fv, a, k, n):
+        # a load / type callable supplied by werkzeug (int, parse_date, ...): returns some value or raises
+        # ValueError / TypeError (trusted: what the accessor protocol documents)
+        c = it.ctx.choose([z3.BoolVal(True)] * 3, "loader")
+        if c == 1:
+            it.raise_("ValueError", node=n)
+        if c == 2:
+            it.raise_("TypeError", node=n)
+        return it.fresh("opaque:loaded", "loaded")
+    reg.overrides["call:loader"] = _loader
+    Stg = "Dict[str, str]"
+    DAP = reg.model("DictAccessor", cls="werkzeug/_internal.py:_DictAccessorProperty",
+                    fields={"name": "str", "default": "Optional[opaque:loaded]", "load_func": "Optional[opaque:loader]",
+                            "storage": Stg})
+    # lookup(instance) is the subclass hook (environ / headers of the instance): here it hands out the model's storage
+    reg.stub_method("werkzeug/_internal.py:_DictAccessorProperty.lookup", "def lookup(self, instance):\n    return self.storage\n")
+    reg.contract(
+        "werkzeug/_internal.py:_DictAccessorProperty.__get__", prop="C07,C16", self_model=DAP,
+        params={"instance": "opaque:request", "owner": "opaque:type"},
+        inline_callees=[],
+        ensures=["implies(not (self.name in self.storage), result == self.default)",
+                 "implies(self.name in self.storage and self.load_func is None, result == self.storage[self.name])"],
+        raises={},       # a failing load function yields the default, never an exception
+    )
+    TCD = reg.model("TypeConversionDict", cls="werkzeug/datastructures/structures.py:TypeConversionDict",
+                    fields={"__dict__": Stg})
+    reg.contract(
+        "werkzeug/datastructures/structures.py:TypeConversionDict.get", prop="C07,C08", self_model=TCD,
+        params={"key": "str", "default": "Optional[opaque:loaded]", "type": "Optional[opaque:loader]"},
+        ensures=["implies(not (key in self.__dict__), result == default)",
+                 "implies(key in self.__dict__ and type is None, result == self.__dict__[key])"],
+        raises={},
+    )
